@@ -236,6 +236,8 @@ func ZZ_C14_S45() {
 	for i := 0; i < 3; i++ {
 		zzverif.Assert(w.accts.FindAccount(zzAddr(i), true).GetBalance().Eq(bal[i]), "S45 no account balance changes")
 	}
+	// C11's invariant after slashing / jailing (totals = sums, every live stake in exactly one place)
+	w.checkInvariant("S45", false)
 	zzverif.Event("S45", evKind, a1Missed, jailed)
 	zzverif.Reach("S45 end")
 	if jailed {
